@@ -45,6 +45,12 @@ def gen(rng, tier):
         trajs, dtypes, tag = G.narrow_set(rng, rng.choice(['many-mixed', 'many-unsigned']))
         yield {'trajs': trajs, 'lag': rng.choice([1, 2]), 'S': [trajs[0][0]], 'F': [trajs[1][0] if trajs[1][0] != trajs[0][0] else trajs[1][1]],
                'perm': [1, 0, 2], 'cut': [1, len(trajs[1]) // 2], 'alpha': tag, 'dtypes': dtypes, 'light': True}
+    for _ in range(1 if tier == 'quick' else 4):      # a trajectory of more than 2^16 frames
+        labs, akind = G.alphabet(rng, k=3)
+        long_t = G.traj(rng, labs, rng.randint(66000, 70000), sticky=0.7)
+        short = G.traj(rng, labs, 9, sticky=0.5)
+        yield {'trajs': [short, long_t], 'lag': rng.choice([2, 3, 5]), 'S': [labs[0]], 'F': [labs[2]], 'perm': [1, 0],
+               'cut': [1, rng.choice([65536, 65537, 40000])], 'alpha': akind + '+long', 'light': True}
     if tier == 'thorough':
         base = [[0, 0, 1, 2, 1, 1], [2, 2, 0], [1], [0, 1, 0, 2, 2, 2, 1, 0]]
         for nt in (2, 3, 4):
@@ -95,6 +101,12 @@ def impl(case):
            'cut': battery(A(_cutset(case), _cutidx(case)), case['lag'], case['S'], case['F'], which=['emm']),
            'single': [battery(A([t], [i]), case['lag'], case['S'], case['F'], which=['coring', 'wt', 'paths'])
                       for i, t in enumerate(trajs)]}
+    # one StateTraj object shared by a sequence of analyses (coring first): later results on the same
+    # object must still be those of the original trajectories
+    import msmhelper as mh
+    shared = mh.StateTraj(A(trajs))
+    out['objseq'] = battery(shared, case['lag'], case['S'], case['F'], which=['coring', 'emm', 'wt', 'paths', 'coring'])
+    out['objseq']['emm2'] = battery(shared, case['lag'], case['S'], case['F'], which=['emm'])['emm']
     present = sorted({v for t in trajs for v in t})
     if len(trajs) >= 2 and len(present) >= 3 and not case.get('light'):
         # lumped objects: the same set in both orders, and the macrostate trajectories passed plainly
@@ -110,8 +122,8 @@ def impl(case):
 
 
 def requests(case):
-    return [[101] + C.enested(case['trajs']) + [case['lag']],
-            [101] + C.enested(_cutset(case)) + [case['lag']]]
+    return [[C.emm_entry(case['trajs'])] + C.enested(case['trajs']) + [case['lag']],
+            [C.emm_entry(case['trajs'])] + C.enested(_cutset(case)) + [case['lag']]]
 
 
 def _close(a, b, tol=1e-12):
@@ -148,6 +160,14 @@ def judge(case, ibc, answers):
             if not _close(b[name], p[name]):
                 P('impl-vs-spec', '%s changes when the trajectories are reordered: %s vs %s' % (
                     name, C.short(b[name], 120), C.short(p[name], 120)))
+        osq = r.get('objseq')
+        if osq:
+            for name in ('emm', 'wt', 'paths', 'coring'):
+                if osq[name] != b[name]:
+                    P('impl-vs-spec', 'shared StateTraj object, after a coring call: %s %s differs from the result on the trajectories %s' % (
+                        name, C.short(osq[name], 110), C.short(b[name], 110)))
+            if osq['emm2'] != b['emm']:
+                P('impl-vs-spec', 'shared StateTraj object: T changes after coring / waiting-time calls on the same object')
         lu = r.get('lumped')
         if lu:
             for name in ('emm', 'its', 'ck'):
